@@ -26,6 +26,7 @@ import Verif.Lemmas.StateCachePublish
 import Verif.Lemmas.StateCacheHeap
 import Verif.Lemmas.StateCacheRecommit
 import Verif.Lemmas.StateCacheClone
+import Verif.Lemmas.StateCacheTxnPublish
 import Verif.Gen.StateCacheFacts
 namespace Verif.Props.C07
 open Verif.SC
@@ -114,6 +115,45 @@ theorem late_writes_visible_through_handle (s : Sys H K B V) (h : H) (bc : BC K 
   · simp only [Sys.step, hl, BC.get, hc]; rfl
   · intro t tc ht hm hn
     simp only [Sys.step, ht, hn, hm, hl, BC.get, hc]; rfl
+
+/-- `tcommit_publishes_to_block`: `TransactionCache.Commit` on block cache `h` makes every pending entry of the
+    transaction — value or removal — what the block cache answers (`bget`), what every OTHER transaction on that block
+    without a pending entry of its own for the key answers, and what the committed transaction itself still answers
+    (its own map is empty now, the block has the entry). Before the `tcommit` none of them can see it (`privacy_txn`:
+    the transaction's pending writes change no output of a history that does not go through it), so the values become
+    visible to the block exactly by `tcommit`. Holds in every state; the pending map has each key once
+    (`Sys.run_tcsNodup`: true of every reachable state). -/
+theorem tcommit_publishes_to_block (s : Sys H K B V) (t h : H) (tc : TC H K B V) (bc : BC K B V) (k : K) (e : Entry V)
+    (ht : alookup s.tcs t = some tc) (hm : tc.main = .block h) (hb : alookup s.bcs h = some bc)
+    (hnd : (tc.cache.map Prod.fst).Nodup) (he : alookup tc.cache k = some e) :
+    (s.step (.tcommit t)).2 = .ok ∧
+    ((s.step (.tcommit t)).1.step (.bget h k)).2 = Out.ofOption e.result ∧
+    ((s.step (.tcommit t)).1.step (.tget t k)).2 = Out.ofOption e.result ∧
+    ∀ t' tc', t' ≠ t → alookup s.tcs t' = some tc' → tc'.main = .block h → alookup tc'.cache k = none →
+      ((s.step (.tcommit t)).1.step (.tget t' k)).2 = Out.ofOption e.result := by
+  have hs : s.step (.tcommit t) = (⟨s.sc, aset s.bcs h (tc.cache.foldl (fun b p => b.setValue p.1 p.2) bc),
+      aset s.tcs t { tc with cache := [] }⟩, .ok) := by
+    simp only [Sys.step, ht, hm, hb]
+  have hl : alookup (aset s.bcs h (tc.cache.foldl (fun b p => b.setValue p.1 p.2) bc)) h
+      = some (tc.cache.foldl (fun b p => b.setValue p.1 p.2) bc) := by rw [alookup_aset]; simp
+  have hc := foldl_setValue_hit tc.cache bc k e hnd he
+  rw [hs]
+  refine ⟨rfl, ?_, ?_, ?_⟩
+  · simp only [Sys.step, hl, BC.get, hc]
+  · have ht2 : alookup (aset s.tcs t (⟨.block h, []⟩ : TC H K B V)) t = some ⟨.block h, []⟩ := by
+      rw [alookup_aset]; simp
+    rw [hm]
+    simp only [Sys.step, ht2, alookup, hl, BC.get, hc]
+  · intro t' tc' hne ht' hm' hn'
+    have ht2 : alookup (aset s.tcs t { tc with cache := [] }) t' = some tc' := by
+      rw [alookup_aset]; simp [Ne.symm hne, ht']
+    simp only [Sys.step, ht2, hn', hm', hl, BC.get, hc]
+
+/-- the side condition of `tcommit_publishes_to_block` holds in every reachable state -/
+theorem tcs_keys_once (capK maxDepth : Nat) (ops : List (Op H K B V)) (t : H) (tc : TC H K B V)
+    (ht : alookup ((Sys.new capK maxDepth : Sys H K B V).run ops).1.tcs t = some tc) :
+    (tc.cache.map Prod.fst).Nodup :=
+  Sys.run_tcsNodup _ ops (fun _ _ h => by simp [Sys.new] at h) t tc ht
 
 /-- `publish`: after any history without eviction, a lookup (at the transaction, block, query or state layer) whose
     context has no pending entry for the key and whose chain reaches, within `maxDepth` parent steps through committed
